@@ -306,7 +306,7 @@ async def run_xfer(ctx) -> None:
     deliveries: list[tuple[float, str, str]] = []  # (t_delivered, zone, version) of every RP|0404 fragment
 
     def on_reply(rq_line, rep, lats):
-        if rep[37:41] == "0404" and rep[:2] == "RP" and len(rep) > 62:
+        if rep[37:41] == "0404" and rep[:2] == "RP" and len(rep) > 60:  # (60 = the 7-byte 'no schedule' reply; a 1-byte fragment is 62)
             z = "HW" if rep[48:50] == "23" else rep[46:48]
             cur = (history.get(z) or [(0, None)])[-1][1]
             for lat in lats or []:
@@ -459,7 +459,10 @@ async def run_xfer(ctx) -> None:
         z = ent["op"]["zone"]
         mine = [t for (t, zz) in frames if zz == z and ent["call"] <= t <= ent["ret"]]
         for t1, t3 in zip(mine, mine[1:]):
-            other = [(t, zz) for (t, zz) in frames if zz != z and t1 < t < t3]
+            # only exchanges of a transfer that is itself under way count: a frame of a transfer that has already ended (whatever
+            # its outcome) is a straggler of the send layer -- a delayed write, KF1 -- not a second transfer inside the lock
+            other = [(t, zz) for (t, zz) in frames if zz != z and t1 < t < t3
+                     and any(e2["op"]["zone"] == zz and e2["ret"] is not None and e2["call"] <= t <= e2["ret"] for e2 in results.values())]
             if other:
                 ctx.violate("C18", "interleaved", "", f"{ent['op']['op']}({z}) exchanged fragments at {t1 - t_start:.3f} and "
                             f"{t3 - t_start:.3f} s, with zone {other[0][1]}'s fragment exchange at {other[0][0] - t_start:.3f} s in between")
@@ -485,6 +488,10 @@ async def run_xfer(ctx) -> None:
                 ctx.violate("C18", "followup_slow", "", f"fault-free follow-up get_schedule({z}) took {took:.1f} s")
             elif norm(res) != cur and z != k("no_sched_zone"):
                 detail = "old_fragment_after_change" if old_fragment_after_change(history.get(z, []), deliveries, z, norm(res), loop.time()) else ""
+                hz = history.get(z, [])
+                if not detail and hz and norm(res) not in {sv for (_t, sv) in hz} and any(
+                        zz == z and ver != hz[-1][1] and hz[-1][0] < t <= loop.time() for (t, zz, ver) in deliveries):
+                    detail = "old_fragment_after_change"  # ... stitched into the new version's fragment set (neither version comes out)
                 own = [e for e in results.values() if e["op"]["zone"] == z and e.get("sched") == norm(res) and e["ret"] is not None]
                 if not detail and own and any(own[-1]["call"] < t <= own[-1]["ret"] + 1e-9 and sv != norm(res)
                                               for (t, sv) in history.get(z, [])[1:]):
